@@ -92,11 +92,12 @@ def suspExplained (func : String) (x y : Nat) (side : Nat) : Bool :=
       r.1.c == c' && r.1.sbit == sb'
 
 /-- transitions of `_dispatch_lane_resume` that touch INACTIVE (bit 56) / NEEDS_ACTIVATION (bit 55), against `ActP.step`:
-    compare the inline count (no side count while these bits are handled), INACTIVE and NEEDS_ACTIVATION -/
+    compare the inline count, INACTIVE and NEEDS_ACTIVATION; the side-count bit may be set (a queue suspended more than 63 times
+    while still inactive) but such a transition never changes it -/
 def actExplained (func : String) (x y : Nat) : Bool :=
   let c := x >>> 58; let ina := bit x 56; let na := bit x 55
   let c' := y >>> 58; let ina' := bit y 56; let na' := bit y 55
-  if func != "_dispatch_lane_resume" || bit x 57 || bit y 57 then false else
+  if func != "_dispatch_lane_resume" || bit x 57 != bit y 57 then false else
   [ActP.Op.activate, ActP.Op.resume].any fun op => [c, c + 1, c - 1, 1].any fun lg =>
     (ActP.step { n := c, inactive := ina, na := na, logical := lg } 1 .idle op).any fun r =>
       r.1.n == c' && r.1.inactive == ina' && r.1.na == na'
